@@ -146,13 +146,21 @@ type c19StreamFail struct {
 	What    string
 }
 
+// c19Early: the message party From sent on its Conns[C] to party To right after its own
+// Connect returned did not arrive as the first thing on To's Peers[From].Conns[C]
+type c19Early struct {
+	From, To, C int
+	Got         []int
+}
+
 type c19Party struct {
-	Stream []c19StreamFail
-	Status int // 0 nil, 1 error, 2 never returned
-	Err    string
-	Ret    *c19Table
-	Fin    *c19Table
-	Pings  []c19Ping
+	EarlyLost []c19Early
+	Stream    []c19StreamFail
+	Status    int // 0 nil, 1 error, 2 never returned
+	Err       string
+	Ret       *c19Table
+	Fin       *c19Table
+	Pings     []c19Ping
 }
 
 func c19Snapshot(nw *p2p.Network, k int) (*c19Table, []p2p.VerifPeerConns) {
@@ -340,7 +348,26 @@ func c19Run(cfg c19Cfg, rng *RNG) ([]c19Party, error) {
 			}()
 			var tab *c19Table
 			if err == nil && !closing.Load() {
-				tab, _ = c19Snapshot(nws[i], k)
+				var snap []p2p.VerifPeerConns
+				tab, snap = c19Snapshot(nws[i], k)
+				// every connection must be usable from the moment Connect returns: send a tagged
+				// message on each of them at once, without waiting for anybody else
+				func() {
+					defer func() { recover() }()
+					for _, row := range snap {
+						if row.ID == i {
+							continue
+						}
+						for cc := 0; cc < k && cc < len(row.Conns); cc++ {
+							if conn := row.Conns[cc]; conn != nil {
+								conn.SendUint32(1000 + i)
+								conn.SendUint32(row.ID)
+								conn.SendUint32(cc)
+								conn.Flush()
+							}
+						}
+					}
+				}()
 			}
 			mu.Lock()
 			if closing.Load() {
@@ -426,6 +453,7 @@ func c19Run(cfg c19Cfg, rng *RNG) ([]c19Party, error) {
 	}
 	var pmu sync.Mutex
 	got := map[slot][]int{}
+	gotEarly := map[slot][]int{}
 	var rwg, swg sync.WaitGroup
 	for s, conn := range conns {
 		swg.Add(1)
@@ -444,17 +472,24 @@ func c19Run(cfg c19Cfg, rng *RNG) ([]c19Party, error) {
 		go func(s slot, conn *p2p.Conn) {
 			defer rwg.Done()
 			defer func() { recover() }()
-			var tok []int
-			for x := 0; x < 3; x++ {
-				v, err := conn.ReceiveUint32()
-				if err != nil {
-					return
+			// first the message the peer sent right after its own Connect returned, then the ping
+			for round := 0; round < 2; round++ {
+				var tok []int
+				for x := 0; x < 3; x++ {
+					v, err := conn.ReceiveUint32()
+					if err != nil {
+						return
+					}
+					tok = append(tok, v)
 				}
-				tok = append(tok, v)
+				pmu.Lock()
+				if round == 0 {
+					gotEarly[s] = tok
+				} else {
+					got[s] = tok
+				}
+				pmu.Unlock()
 			}
-			pmu.Lock()
-			got[s] = tok
-			pmu.Unlock()
 		}(s, conn)
 	}
 	swg.Wait()
@@ -594,6 +629,19 @@ func c19Run(cfg c19Cfg, rng *RNG) ([]c19Party, error) {
 			return ps[a].C < ps[b].C
 		})
 		res[i].Pings = ps
+		for s := range conns {
+			if s.i != i || status[s.j] != 0 {
+				continue
+			}
+			e := gotEarly[s]
+			if len(e) != 3 || e[0] != 1000+s.j || e[1] != i || e[2] != s.c {
+				res[i].EarlyLost = append(res[i].EarlyLost, c19Early{From: s.j, To: i, C: s.c, Got: e})
+			}
+		}
+		sort.Slice(res[i].EarlyLost, func(a, b int) bool {
+			x, y := res[i].EarlyLost[a], res[i].EarlyLost[b]
+			return x.From < y.From || (x.From == y.From && x.C < y.C)
+		})
 	}
 	pmu.Unlock()
 	return res, nil
@@ -782,6 +830,19 @@ func runC19(c *Ctx) error {
 		c.Hist("mode=" + cfg.Mode)
 
 		symptoms, f11 := c19Oracle(cfg, res)
+		seenEarly := map[string]bool{}
+		for _, p := range res {
+			for _, e := range p.EarlyLost {
+				key := fmt.Sprintf("c19:early-data-lost:party%d->%d:conn%d", e.From, e.To, e.C)
+				if seenEarly[key] {
+					continue
+				}
+				seenEarly[key] = true
+				c.Fail(key, fmt.Sprintf("n=%d k=%d join order %v mode %s: the mesh formed, but the message party %d sent on Peers[%d].Conns[%d] immediately after its own Connect returned is not the first thing party %d receives on Peers[%d].Conns[%d] (got %v)",
+					cfg.N, cfg.K, cfg.Order, cfg.Mode, e.From, e.To, e.C, e.To, e.From, e.C, e.Got),
+					map[string]interface{}{"cfg": cfg, "lost": e})
+			}
+		}
 		if cfg.StreamRecs > 0 {
 			c.Hist("post-connect-stream")
 			smu := map[string]bool{}
